@@ -256,6 +256,7 @@ func (p *c16) Exec(t *testing.T, scAny any) Outcome {
 	for _, r := range capture.Records {
 		texts = append(texts, r.Text)
 	}
+	texts = append(texts, capture.Late()...) // the same records, formatted after the fact
 	if buf.Len() > 0 {
 		texts = append(texts, buf.String())
 		if sc.Client.Logger == "json" {
@@ -472,6 +473,7 @@ func (p *c16) execDirect(t *testing.T, sc *C16Scenario) Outcome {
 	for _, r := range capture.Records {
 		texts = append(texts, r.Text)
 	}
+	texts = append(texts, capture.Late()...) // the same records, formatted after the fact
 	texts = append(texts, buf.String())
 	all := strings.Join(texts, "\n")
 	if authErr == nil {
@@ -602,6 +604,7 @@ func (p *c16) execLateDebug(t *testing.T, sc *C16Scenario) Outcome {
 	for _, r := range capture.Records {
 		texts = append(texts, r.Text)
 	}
+	texts = append(texts, capture.Late()...) // the same records, formatted after the fact
 	texts = append(texts, buf.String())
 	all := strings.Join(texts, "\n")
 	when := "before-auth"
@@ -666,6 +669,18 @@ func (p *c16) execLateDebug(t *testing.T, sc *C16Scenario) Outcome {
 		if e.Kind == "cmd" && e.Verb == "MAIL" {
 			sawMail = true
 		}
+	}
+	sawAuth := false
+	for _, e := range env.Srv.H.Events {
+		if e.Kind == "cmd" && e.Verb == "AUTH" {
+			sawAuth = true
+		}
+	}
+	if sawAuth && !sawMail && !strings.Contains(all, "MAIL FROM:<sender-afterauth@origin.example>") {
+		// the exchange ended with the connection gone (535 and QUIT, a disconnect): the MAIL the
+		// caller tries next never reaches the server, but it is logged before it is written — and
+		// it is no authentication data
+		out.violate("C16:window-not-closed:connection-gone:"+mode, "debug logging switched on %s (%s, Auth returned %v): the caller's next command (MAIL) was logged, but not verbatim — the log still hides what is sent after the authentication has ended (log tail: %q)", when, sc.Client.AuthType, authErr, clipStr(tailStr(all, 300), 300))
 	}
 	if sawMail && !strings.Contains(all, "MAIL FROM:<sender-afterauth@origin.example>") {
 		out.violate("C16:window-not-closed:"+mode, "debug logging switched on %s (%s, Auth returned %v): the MAIL command that followed the exchange reached the server but is not in the log verbatim (log tail: %q)", when, sc.Client.AuthType, authErr, clipStr(tailStr(all, 300), 300))
